@@ -217,6 +217,55 @@ def floored_factor_findings(fn):
     return out
 
 
+def truncated_quotient_findings(fn):
+    """FD2: a whole number is recovered from floating-point arithmetic by truncation: int(x) / math.floor(x) / math.trunc(x) / x // 1 where
+    x is (the local accumulator of) a product or sum that involves a true division of non-literal operands and no round() lies in
+    between.  The float result of an exact integer quantity may sit one ulp below the integer; truncation then loses 1."""
+    inexact = set()
+    changed = True
+    def expr_inexact(e):
+        for x in ast.walk(e):
+            if isinstance(x, ast.Call) and norm(x.func) == 'round':
+                return False if x is e else None
+        for x in ast.walk(e):
+            if isinstance(x, ast.BinOp) and isinstance(x.op, ast.Div) and not (isinstance(x.left, ast.Constant) and isinstance(x.right, ast.Constant)):
+                # a division inside round(...) is repaired by the rounding
+                p, rounded = x, False
+                while p is not None and p is not e:
+                    p = getattr(p, '_sa_parent', None)
+                    if isinstance(p, ast.Call) and norm(p.func) == 'round':
+                        rounded = True
+                if not rounded:
+                    return True
+            if isinstance(x, ast.Name) and x.id in inexact:
+                return True
+        return False
+    while changed:
+        changed = False
+        for n in walk_no_nested(fn):
+            tgt = val = None
+            if isinstance(n, ast.Assign) and len(n.targets) == 1 and isinstance(n.targets[0], ast.Name):
+                tgt, val = n.targets[0].id, n.value
+            elif isinstance(n, ast.AugAssign) and isinstance(n.target, ast.Name):
+                tgt, val = n.target.id, n.value
+                if isinstance(n.op, ast.Div) and tgt not in inexact:
+                    inexact.add(tgt)
+                    changed = True
+            if tgt and tgt not in inexact and val is not None and expr_inexact(val):
+                inexact.add(tgt)
+                changed = True
+    out = []
+    for n in walk_no_nested(fn):
+        arg = None
+        if isinstance(n, ast.Call) and norm(n.func) in ('int', 'math.floor', 'math.trunc', 'floor', 'trunc') and len(n.args) == 1:
+            arg = n.args[0]
+        elif isinstance(n, ast.BinOp) and isinstance(n.op, ast.FloorDiv) and isinstance(n.right, ast.Constant) and n.right.value == 1:
+            arg = n.left
+        if arg is not None and expr_inexact(arg):
+            out.append((norm(n)[:70], n))
+    return out
+
+
 def zero_guard_findings(fn):
     """`if E == 0: ... else: x / D` (or `if E != 0: x / D`): the guarded branch divides, so E must be one of its divisors"""
     out = []
@@ -375,6 +424,17 @@ def check_cross(m, run):
 
 def check_binomial(m, run):
     fi = m.func('linalg.binomial_coefficient')
+    for key_, node_ in truncated_quotient_findings(fi.node):
+        run.ob('FD2.no-truncated-float-quotient', '%s :: %s' % (fi.key, key_), False,
+               'a whole number is recovered from a floating-point quotient by truncation: the product of k-j+1 / j factors can land one ulp below the integer '
+               '(first at C(11, 5)) and int() then returns one less; round, or keep the arithmetic in integers', site(fi, node_))
+    ctl_ = ast.parse('def f(k, i):\n    r = 1.0\n    for j in range(1, i + 1):\n        r *= float(k - j + 1) / float(j)\n    return float(int(r))\n').body[0]
+    for x_ in ast.walk(ctl_):
+        for c_ in ast.iter_child_nodes(x_):
+            c_._sa_parent = x_
+    if len(truncated_quotient_findings(ctl_)) != 1:
+        raise AnalysisError('FD2 positive control not reported: rule is broken')
+    run.ob('FD2.no-truncated-float-quotient', fi.key, True, 'no truncation of a floating-point quotient; positive control reported')
     ps = params_of(fi.node)
     k, i = ps[0], ps[1]
     sub = Subst(fi.node)
